@@ -60,7 +60,7 @@ Section Match.
     alookup p (n_opts (cur st)) = None ->
     (2 <= length (List.filter (pfx p) (n_opts (cur st))))%nat ->
     exists cands,
-      start_pair st tok (mkPair p a) = Err (mkErr EAmbiguous (msg_ambiguous tok cands) false) /\
+      start_pair st tok (mkPair p a) = Err (e_ambiguous tok cands) /\
       Sorted sle cands /\
       Permutation cands (keys (List.filter (pfx p) (n_opts (cur st)))).
   Proof.
